@@ -1,7 +1,8 @@
 (* RunC19.v -- runner for C19.
    case  ::= (case <cfg> <doc> <prev> <full> <cut> (chunks n...) <job> [<pad>])
-     cfg            : (cfg table|stream plain|inc <max_id> (d trailer...) (ids n...)) -- xref format, and the
-                      state of the document object before the save: max_id, trailer, numbers of the objects written
+     cfg            : (cfg table|stream plain|inc <max_id> (d trailer...) (ids n...) <top>) -- xref format, and the
+                      state of the document object before the save: max_id, trailer, numbers of the objects written,
+                      largest object number (plain) or `-` (incremental)
      doc, prev      : read by the harness only
      full           : the implementation's complete output for this document (perfect sink), as one atom or as
                       (f x.. x.. ...), the concatenation of short atoms
@@ -97,27 +98,31 @@ Definition size_of (st : sstate) : Z :=
 Definition resave_same (mode : xmode) (st st' : sstate) : bool :=
   match mode with XTable => true | XStream => (s_max_id st =? s_max_id st')%N end.
 
-Record cfg := { c_mode : xmode; c_state : sstate; c_ids : list N }.
+Record cfg := { c_mode : xmode; c_state : sstate; c_ids : list N; c_top : option N }.
+(* top: the largest object number of a plain document, `-` for an incremental one (SaveState.raise_max_id) *)
 Definition cfg_of_sx (x : sx) : option cfg :=
   match x with
-  | SL [t; m; _; mx; tr; SL (ti :: ids)] =>
+  | SL [t; m; _; mx; tr; SL (ti :: ids); top] =>
     if is_id t "cfg" && is_id ti "ids" then
       do mx <- as_N mx; do tr <- dict_of_sx tr; do ids <- omap as_N ids;
+      do top <- (if is_id top "-" then Some None else option_map Some (as_N top));
       Some {| c_mode := if is_id m "stream" then XStream else XTable;
-              c_state := {| s_max_id := mx; s_trailer := tr |}; c_ids := ids |}
+              c_state := {| s_max_id := mx; s_trailer := tr |}; c_ids := ids; c_top := top |}
     else None
   | _ => None
   end.
+(* the state a re-save starts from is compared after the raise every plain save begins with *)
+Definition c_raised (c : cfg) : sstate := raise_max_id (c_top c) (c_state c).
 
 Definition run_job (c : cfg) (pre post : list bytes) (job : sx) : option sx :=
   let go := fun (positional : bool) (s : script) =>
-    save_with (if positional then qwrite_all else write_all) (c_mode c) (c_ids c) pre post (c_state c) s in
+    save_with (if positional then qwrite_all else write_all) (c_mode c) (c_ids c) (c_top c) pre post (c_state c) s in
   match job with
   | SL [t; sem; sc] =>
     if is_id t "one" then
       do s <- script_of_sx sc;
       let '(r, d, st') := go (is_id sem "pos") s in
-      Some (SL [sx_id "res"; rc_to_sx r; sx_bytes d; state_to_sx st'; sx_bool (resave_same (c_mode c) (c_state c) st')])
+      Some (SL [sx_id "res"; rc_to_sx r; sx_bytes d; state_to_sx st'; sx_bool (resave_same (c_mode c) (c_raised c) (raise_max_id (c_top c) st'))])
     else None
   | SL [t; sc; hard; lo; hi; step] =>
     if is_id t "sweep" then
@@ -129,7 +134,7 @@ Definition run_job (c : cfg) (pre post : list bytes) (job : sx) : option sx :=
       Some (SL (sx_id "sweep" ::
                 map (fun p => let '(r, d, st') := go true (cut_quota s p ++ [h]) in
                               SL [rc_to_sx r; sx_N (N.of_nat (length d)); sx_N (s_max_id st'); sx_Z (size_of st');
-                                  sx_bool (resave_same (c_mode c) (c_state c) st')])
+                                  sx_bool (resave_same (c_mode c) (c_raised c) (raise_max_id (c_top c) st'))])
                     (positions n lo step)))
     else None
   | _ => None
@@ -184,7 +189,7 @@ Definition run_path (c : cfg) (full : bytes) (cut : N) (sizes : list nat) (targe
   let '(a, b) := cut_at full cut in
   let '(pre, rest) := chop sizes a in
   let '(post, _) := chop rest b in
-  Some (save_path_with qwrite_all DEFAULT_BUF_SIZE (c_mode c) (c_ids c) pre post (c_state c) (fst dv) (snd dv)).
+  Some (save_path_with qwrite_all DEFAULT_BUF_SIZE (c_mode c) (c_ids c) (c_top c) pre post (c_state c) (fst dv) (snd dv)).
 
 (* the document state after save(path) is a function of the observable outcome -- not of the buffer capacity and the
    call boundaries -- when the save succeeded, when the file could not be created, or when the file holds at least the
@@ -205,7 +210,7 @@ Definition run_path_job (c : cfg) (full : bytes) (cut : N) (job : sx) : option s
       do res <- run_path c full cut sizes a1;
       let '(r, f, st') := res in
       if state_known a1 cut r f then
-        Some (SL [sx_id "pres"; rc_to_sx r; sx_bytes f; state_to_sx st'; sx_bool (resave_same (c_mode c) (c_state c) st')])
+        Some (SL [sx_id "pres"; rc_to_sx r; sx_bytes f; state_to_sx st'; sx_bool (resave_same (c_mode c) (c_raised c) (raise_max_id (c_top c) st'))])
       else Some (SL [sx_id "pres"; rc_to_sx r; sx_bytes f; SL [sx_id "state"; q]; q])
     else if is_id t "psweep" then
       do sizes <- sizes_of_sx a1;
@@ -218,7 +223,7 @@ Definition run_path_job (c : cfg) (full : bytes) (cut : N) (job : sx) : option s
                              let '(r, f, st') := res in
                              if state_known (sx_id "limit") cut r f then
                                Some (SL [rc_to_sx r; sx_N (N.of_nat (length f)); sx_N (s_max_id st'); sx_Z (size_of st');
-                                         sx_bool (resave_same (c_mode c) (c_state c) st')])
+                                         sx_bool (resave_same (c_mode c) (c_raised c) (raise_max_id (c_top c) st'))])
                              else Some (SL [rc_to_sx r; sx_N (N.of_nat (length f)); q; q; q])) ps;
           Some (SL (sx_id "psweep" :: rows))
         else None
